@@ -42,8 +42,23 @@ class LoopSpec:
         self.props = list(props)
 
 
+class Carried:
+    """a fact that a process instance carries across one of its yields (rely/guarantee, DESIGN 7): it must be stable under
+    every segment / method of every OTHER process instance.  params: the foreign instance's parameters (fresh, arbitrary);
+    formula(sv, p, roots) -> z3 Bool or None if the world lacks the objects; distinct(names, p) -> what separates the foreign
+    instance from the one being verified (None: nothing assumed)"""
+    def __init__(self, name, owner, params, formula, distinct=None, props=()):
+        self.name = name
+        self.owner = owner
+        self.params = params
+        self.formula = formula
+        self.distinct = distinct
+        self.props = list(props)
+
+
 class Registry:
     def __init__(self):
+        self.carried = []
         self.contracts = {}
         self.loops = {}
         self.entities = {}          # cls -> {field: type}
